@@ -263,7 +263,7 @@ def in_progress_result_names(fn: ast.AST) -> set[str]:
     out: set[str] = set()
     for st in ast.walk(fn):
         if isinstance(st, ast.Assign) and len(st.targets) == 1 and isinstance(st.targets[0], ast.Subscript) and isinstance(st.targets[0].value, ast.Name):
-            sl = norm(st.targets[0].slice)
+            sl = norm(resolve_local(fn, st.targets[0].slice))
             if "name" not in sl:
                 continue
             v = st.value
